@@ -147,6 +147,15 @@ namespace hv
             else if (kind == "c3") out = wire_valid<C3>(w, valid, 0, arg(0), arg(1), arg(2), id, op);
             else if (kind == "sample") out = wire<Sample>(w, arg(0), arg(1), id);
             else if (kind == "samplemid") out = wire<SampleMid>(w, arg(0), arg(1), arg(2), id);
+            else if (kind == "lift2")
+            {   // <name> = lift2 <a> <b> k=<slot> id=<id>: a scalar function lifted with lift<F>()
+                const long long k = st.geti("k", 0);
+                ctx().lift_id[k & 3] = static_cast<long long>(id);
+                auto mk = []<int K>(std::integral_constant<int, K>) -> WiredFn { const WiredFn g = lift<LiftQ<K>>(); return g; };
+                const WiredFn f = k == 0 ? mk(std::integral_constant<int, 0>{}) : k == 1 ? mk(std::integral_constant<int, 1>{}) : k == 2 ? mk(std::integral_constant<int, 2>{}) : mk(std::integral_constant<int, 3>{});
+                const std::array<WiringPortRef, 2> la{arg(0).erased(), arg(1).erased()};
+                out = P{w, f.wire(w, std::span<const WiringPortRef>{la.data(), la.size()})};
+            }
             else if (kind == "conv")
                 out = st.get("ty", "I") == "F" ? wire<FloatToInt>(w, wire<Conv, TS<Float>>(w, arg(0), id)).as<TS<Int>>()
                                               : wire<Conv, TS<Int>>(w, arg(0), id).as<TS<Int>>();
